@@ -31,6 +31,7 @@ type namedTerm struct {
 }
 
 type Session struct {
+	topFrame *Frame // frame of the function under proof
 	runMode string // contract mode in which the function under proof is being verified
 	topContract *Contract // contract of the function under proof
 	curTag     int   // >0: assertions made now belong to the body of this isolated loop (header block index + 1)
